@@ -30,6 +30,7 @@ def dispatch (line : String) : String :=
     | "codec" => C03.codec args
     | "wire" => C03.wireOp args
     | "wire2" => C03.wire2Op args
+    | "bigwire" => C03.bigwireOp args
     | "estep" => C03.estepOp args
     | "parse" => C15.parseOp args
     | "rr" => C15.rrOp args
@@ -71,6 +72,7 @@ def dispatch (line : String) : String :=
     | "b64" => C10.b64Op args
     | "sendmsg" => C18.sendmsgOp args
     | "mailparam" => C04.mailparamOp args
+    | "urlcred" => C04.urlcredOp args
     | "ehlocmd" => C04.ehlocmdOp args
     | "mailstd" => C04.mailstdOp args
     | _ => "BADOP"
